@@ -1,7 +1,7 @@
 (** Data fields: decoding a carrier value and encoding the result gives the value back (C08), for integer
     rows by arithmetic and for scaled rows by the error-bound argument of FloatProofs; exactly one carrier
     value of an optional field means "absent". *)
-From Coq Require Import ZArith List Lia Bool QArith.
+From Coq Require Import Reals ZArith List Lia Bool QArith Qreals.
 From Flocq Require Import Core BinarySingleNaN.
 From RtcmModel Require Import Types BitIO Floats Field.
 From RtcmProofs Require Import ListZ BitProofs DecodeBound DecodeTotal FloatProofs FloatBits.
@@ -185,3 +185,81 @@ Fixpoint frag_fields (f : frag) : list field_spec :=
   | FMsm _ a b => a ++ b
   | _ => []
   end.
+
+(** ---------- quantisation of an arbitrary in-range input (C11) ---------- *)
+Definition flt_near_ok (prec emax : Z) (Hp : Prec_gt_0 prec) (Hpe : Prec_lt_emax prec emax) (fs : field_spec) : bool :=
+  match num_flt prec emax Hp Hpe (f_res fs), num_flt prec emax Hp Hpe (f_bias fs) with
+  | Some (Some r), Some b =>
+      fnear_ok prec emax r b (patN (f_ck fs) (f_len fs)) && f_round fs
+      && match b with Some _ => 0 <=? pat_lo (f_ck fs) (f_len fs) | None => true end
+      && (cmin (f_ck fs) (f_cbits fs) <=? pat_lo (f_ck fs) (f_len fs)) && (pat_hi (f_ck fs) (f_len fs) <=? cmax (f_ck fs) (f_cbits fs))
+      && (cmin (f_ck fs) (f_cbits fs) <=? 0) && (0 <=? cmax (f_ck fs) (f_cbits fs)) && (pat_lo (f_ck fs) (f_len fs) <=? pat_hi (f_ck fs) (f_len fs))
+  | _, _ => false
+  end.
+
+Definition field_near_ok (fs : field_spec) : bool :=
+  match f_dt fs with
+  | DF32 => flt_near_ok 24 128 Hp32 Hpe32 fs
+  | DF64 => flt_near_ok 53 1024 Hp64 Hpe64 fs
+  | _ => true
+  end.
+
+Section Near.
+  Variables prec emax : Z.
+  Context (Hp : Prec_gt_0 prec) (Hpe : Prec_lt_emax prec emax).
+  Variable fs : field_spec.
+  Variable r : binary_float prec emax.
+  Variable b : option (binary_float prec emax).
+  Hypothesis Er : num_flt prec emax Hp Hpe (f_res fs) = Some (Some r).
+  Hypothesis Eb : num_flt prec emax Hp Hpe (f_bias fs) = Some b.
+  Hypothesis Hok : flt_near_ok prec emax Hp Hpe fs = true.
+  Notation lo := (pat_lo (f_ck fs) (f_len fs)).
+  Notation hi := (pat_hi (f_ck fs) (f_len fs)).
+  Notation dec := (fdec_core prec emax Hp Hpe (Some r) b).
+  Notation enc := (fenc_core prec emax Hp Hpe (Some r) b (f_round fs) (f_ck fs) (f_cbits fs)).
+
+  (** between two adjacent grid points: one of the two, within half a step plus the row's slack (at most a
+      quarter step) *)
+  Theorem flt_nearest x k : is_finite x = true -> lo <= k -> k + 1 <= hi ->
+    (B2R (dec k) <= B2R x <= B2R (dec (k + 1)))%R ->
+    exists n, enc x = Ok n /\ (n = k \/ n = k + 1) /\
+      (Rabs (B2R x - B2R (dec n)) <= B2R r / 2 + Q2R (row_slack prec emax r b (patN (f_ck fs) (f_len fs))))%R /\
+      (Q2R (row_slack prec emax r b (patN (f_ck fs) (f_len fs))) <= B2R r / 4)%R.
+  Proof.
+    intros Fx Hk Hk1 Hx. pose proof Hok as K. unfold flt_near_ok in K. rewrite Er, Eb in K.
+    do 7 (apply andb_true_iff in K; destruct K as [K ?]).
+    repeat match goal with X : (_ <=? _) = true |- _ => apply Z.leb_le in X end.
+    match goal with X : f_round fs = true |- _ => rewrite X end.
+    apply (fnear prec emax Hp Hpe r b _ K); try assumption; try (unfold patN; lia).
+    destruct b; [match goal with X : (0 <=? lo) = true |- _ => apply Z.leb_le in X end; lia|exact I].
+  Qed.
+
+  (** monotone over the whole range; the result never leaves [lo, hi] *)
+  Theorem flt_monotone x y : is_finite x = true -> is_finite y = true ->
+    (B2R (dec lo) <= B2R x)%R -> (B2R x <= B2R y)%R -> (B2R y <= B2R (dec hi))%R ->
+    exists nx ny, enc x = Ok nx /\ enc y = Ok ny /\ lo <= nx <= ny /\ ny <= hi.
+  Proof.
+    intros Fx Fy H1 H2 H3. pose proof Hok as K. unfold flt_near_ok in K. rewrite Er, Eb in K.
+    do 7 (apply andb_true_iff in K; destruct K as [K ?]).
+    repeat match goal with X : (_ <=? _) = true |- _ => apply Z.leb_le in X end.
+    match goal with X : f_round fs = true |- _ => rewrite X end.
+    apply (fnear_mono prec emax Hp Hpe r b _ K); try assumption; try (unfold patN; lia).
+    destruct b; [match goal with X : (0 <=? lo) = true |- _ => apply Z.leb_le in X end; lia|exact I].
+  Qed.
+End Near.
+
+(** link to the value-level codec: what encode_core / decode_core do on float rows *)
+Lemma encode_core_f32 fs r b x : f_dt fs = DF32 -> num_flt 24 128 Hp32 Hpe32 (f_res fs) = Some r -> num_flt 24 128 Hp32 Hpe32 (f_bias fs) = Some b ->
+  is_finite x = true ->
+  encode_core fs (VF32 (f32_to_bits x)) = fenc_core 24 128 Hp32 Hpe32 r b (f_round fs) (f_ck fs) (f_cbits fs) x.
+Proof. intros Hd Er Eb Fx. unfold encode_core. rewrite Hd, Er, Eb, (f32_of_to_bits x Fx). reflexivity. Qed.
+Lemma encode_core_f64 fs r b x : f_dt fs = DF64 -> num_flt 53 1024 Hp64 Hpe64 (f_res fs) = Some r -> num_flt 53 1024 Hp64 Hpe64 (f_bias fs) = Some b ->
+  is_finite x = true ->
+  encode_core fs (VF64 (f64_to_bits x)) = fenc_core 53 1024 Hp64 Hpe64 r b (f_round fs) (f_ck fs) (f_cbits fs) x.
+Proof. intros Hd Er Eb Fx. unfold encode_core. rewrite Hd, Er, Eb, (f64_of_to_bits x Fx). reflexivity. Qed.
+Lemma decode_core_f32 fs r b k : f_dt fs = DF32 -> num_flt 24 128 Hp32 Hpe32 (f_res fs) = Some r -> num_flt 24 128 Hp32 Hpe32 (f_bias fs) = Some b ->
+  decode_core fs k = Ok (VF32 (f32_to_bits (fdec_core 24 128 Hp32 Hpe32 r b k))).
+Proof. intros Hd Er Eb. unfold decode_core. rewrite Hd, Er, Eb. reflexivity. Qed.
+Lemma decode_core_f64 fs r b k : f_dt fs = DF64 -> num_flt 53 1024 Hp64 Hpe64 (f_res fs) = Some r -> num_flt 53 1024 Hp64 Hpe64 (f_bias fs) = Some b ->
+  decode_core fs k = Ok (VF64 (f64_to_bits (fdec_core 53 1024 Hp64 Hpe64 r b k))).
+Proof. intros Hd Er Eb. unfold decode_core. rewrite Hd, Er, Eb. reflexivity. Qed.
